@@ -11,6 +11,8 @@ def observe(spec, inputs):
     m1 = plspec.build(n, spec["model"], env)
     out = {"snap": snap, "gen": bool(m0.generated_id), "mid": m0.id, "error": None}
     try:
+        if spec.get("warm"):
+            C.warm(m1)
         neg = n.pg.Not(m1) if spec["via"] == "Not" else m1.negate()
         out["negsnap"] = C.snapshot(n, neg)
         out["negid"] = neg.id
